@@ -289,8 +289,8 @@ mod threefish {
         ($name:expr, $t:ty, $nw:expr, $ctx:expr, $rep:expr) => {{
             if $ctx.wants_k("threefish", $name) && cfg!(not(feature = "lite")) {
                 let keys = if $ctx.tier == Tier::Quick { al::t_set($nw * 8, 1) } else { al::s_set($nw * 8, 1) };
-                let tweaks = al::m_set(16, 3);
-                let blocks = if $ctx.tier == Tier::Quick { al::t_set($nw * 8, 2) } else { al::s_set($nw * 8, 2) };
+                let tweaks = if $ctx.tier == Tier::Quick { al::m_set(16, 3) } else { al::s_set(16, 3) };
+                let blocks = al::t_set($nw * 8, 2);
                 let work: Vec<(usize, usize)> = (0..keys.len()).flat_map(|k| (0..tweaks.len()).map(move |t| (k, t))).collect();
                 par_for(work.len(), $rep, |i, r| {
                     let (k, t) = work[i];
